@@ -1243,7 +1243,12 @@ func judgeTyped(c *CheckCtx, rn Runner, tc *typedCase, prop string) *Violation {
 		case prop == "C07" && s.Kind == "call" && s.Verdict == "fail":
 			c.Event("certain_fail_calls_judged", 1)
 			if len(byRow[row]) == 0 {
-				return &Violation{Sig: "missed:" + s.Reason + ":" + s.Feature, Kind: "typed", Case: mustJSON(tc),
+				reason := s.Reason
+				if s.Feature == "no-parens:parameterless-method" {
+					// one listed finding, whichever of the call's faults the model names first
+					reason = "arity"
+				}
+				return &Violation{Sig: "missed:" + reason + ":" + s.Feature, Kind: "typed", Case: mustJSON(tc),
 					What:     fmt.Sprintf("row %d `%s` certainly fails under the configuration (%s) but no diagnostic is reported on its row", row, s.Text, s.Reason),
 					Observed: clip(out, 2500)}
 			}
